@@ -69,5 +69,25 @@ def WF : List Piece → Prop
       (ps = [] ∨ ∃ cs ps', ps = .text ('\n' :: cs) :: ps')
   | .block b :: ps => '\n' ∉ b ∧ NoPair '*' '/' (b ++ ['*']) ∧ WF ps
 
-end Strip
+/-! executable versions of the well-formedness predicates (used by the trace acceptor; sound by `wfB_sound`) -/
 
+def noPairB (a b : Char) : List Char → Bool
+  | [] => true
+  | [_] => true
+  | x :: y :: rest => !(x == a && y == b) && noPairB a b (y :: rest)
+
+def plainB (cs : List Char) : Bool :=
+  noPairB '/' '/' cs && noPairB '/' '*' cs && cs.getLast? != some '/'
+
+def startsWithNewlineText : List Piece → Bool
+  | [] => true
+  | .text ('\n' :: _) :: _ => true
+  | _ => false
+
+def wfB : List Piece → Bool
+  | [] => true
+  | .text cs :: ps => plainB cs && wfB ps
+  | .line b :: ps => !b.contains '\n' && wfB ps && startsWithNewlineText ps
+  | .block b :: ps => !b.contains '\n' && noPairB '*' '/' (b ++ ['*']) && wfB ps
+
+end Strip
